@@ -47,6 +47,12 @@ def partner_spec(spec, kind, variant=1):
         labels = [None if s is None else (s[:-1] if s.endswith('*') else s + '*') for s in spec['labels']]
         if any(s is not None and '(' in s for s in spec['labels']):
             labels = [None] * len(legs)
+    elif kind == 'twin':
+        # same physical charges, but the first leg stored with the opposite sign convention (flip_charges_qconj):
+        # `test_equal` legs, so linear combinations are allowed
+        l2 = [legs[0].twin()] + legs[1:]
+        q = spec['qtotal']
+        labels = spec['labels']
     else:
         l2 = legs
         q = spec['qtotal']
@@ -74,7 +80,7 @@ def leg_tuples(ch, rank, tier):
     return tuples
 
 
-def seeds(ch, tier, ranks=(1, 2, 3), dtypes=('float64', 'complex128'), pair_kinds=('conj', 'same')):
+def seeds(ch, tier, ranks=(1, 2, 3), dtypes=('float64', 'complex128'), pair_kinds=('conj', 'same', 'twin')):
     """List of (seed heap, family name)."""
     out = []
     for rank in ranks:
@@ -88,5 +94,7 @@ def seeds(ch, tier, ranks=(1, 2, 3), dtypes=('float64', 'complex128'), pair_kind
                 out.append(([spec], 'r%d' % rank))
                 if rank <= 2 or si == 0:
                     for kind in pair_kinds:
+                        if kind == 'twin' and (not K.mods(ch) or si % 3):
+                            continue
                         out.append(([spec, partner_spec(spec, kind)], 'r%d+%s' % (rank, kind)))
     return out
